@@ -48,6 +48,8 @@ package absnfs
 //@ modifies everything, allghosts - handlerCalls - atomicptr - lsncfg - poolsrc, locks, once
 // while the read-only policy is in force the handler issues no modifying backend operation
 //@ ensures [ro-no-backend-mutation] old(curPolicy(h.server.handler).ReadOnly) ==> mutlog == old(mutlog)
+// C11: a caller whose effective uid is not 0 never has the backend record an owner other than itself
+//@ ensures [owner-only-self] {C11} old(authCtx.EffectiveUID) != 0 ==> chowns == old(chowns) || (chownuid == old(authCtx.EffectiveUID) && chowngid == old(authCtx.EffectiveGID))
 
 //@ func NFSProcedureHandler.handleNFSCall
 //@ prop C08
@@ -105,6 +107,8 @@ package absnfs
 //@ func NFSProcedureHandler.handleSetattr
 //@ prop C08
 //@ partial
+// C11: SETATTR's uid and gid are ignored for a caller that is not root (the attributes handed on keep the node's)
+//@ callassert AbsfsNFS.SetAttr : [ids-ignored-unless-root] {C11} authCtx.EffectiveUID != 0 ==> node.attrs != nil && attrs.Uid == node.attrs.Uid && attrs.Gid == node.attrs.Gid
 //@ ensures [ro-refused] old(curPolicy(h.server.handler).ReadOnly) ==> result0 == reply && replyIsBytes(reply) && replyStatus(reply) != 0
 //@ func NFSProcedureHandler.handleWrite
 //@ prop C08
@@ -113,12 +117,15 @@ package absnfs
 //@ func NFSProcedureHandler.handleCreate
 //@ prop C08
 //@ partial
+// C11: the owner requested for the new file is the caller's effective identity unless the caller is root
+//@ callassert AbsfsNFS.Create : [owner-is-caller] {C11} authCtx.EffectiveUID != 0 ==> attrs.Uid == authCtx.EffectiveUID && attrs.Gid == authCtx.EffectiveGID
 //@ callassert AbsfsNFS.Create : [backend-path] {C07} arg1 == node && arg2 == name && validComp(name)
 //@ callassert AbsfsNFS.Lookup : [backend-path] {C07} arg1 == joined(node.path, name) && validComp(name)
 //@ ensures [ro-refused] old(curPolicy(h.server.handler).ReadOnly) ==> result0 == reply && replyIsBytes(reply) && replyStatus(reply) != 0
 //@ func NFSProcedureHandler.handleMkdir
 //@ prop C08
 //@ partial
+//@ callassert absfs.FS.Chown : [owner-is-caller] {C11} authCtx.EffectiveUID != 0 ==> arg2 == authCtx.EffectiveUID && arg3 == authCtx.EffectiveGID
 //@ callassert absfs.FS.Mkdir : [backend-path] {C07} arg1 == joined(node.path, name) && validComp(name)
 //@ callassert absfs.FS.Chown : [backend-path] {C07} arg1 == joined(node.path, name) && validComp(name)
 //@ callassert AbsfsNFS.Lookup : [backend-path] {C07} arg1 == joined(node.path, name) && validComp(name)
@@ -126,6 +133,8 @@ package absnfs
 //@ func NFSProcedureHandler.handleSymlink
 //@ prop C08
 //@ partial
+//@ callassert absfs.FS.Lchown : [owner-is-caller] {C11} authCtx.EffectiveUID != 0 ==> arg2 == authCtx.EffectiveUID && arg3 == authCtx.EffectiveGID
+//@ callassert AbsfsNFS.Symlink : [owner-is-caller] {C11} authCtx.EffectiveUID != 0 ==> attrs.Uid == authCtx.EffectiveUID && attrs.Gid == authCtx.EffectiveGID
 // C07: the link is created under a validated name, with a relative target free of '..' components
 //@ callassert AbsfsNFS.Symlink : [backend-path] {C07} arg1 == node && arg2 == name && validComp(name)
 //@ callassert AbsfsNFS.Symlink : [target-contained] {C07} arg3 == target && !absTarget(target) && !dotdotComp(target)
@@ -209,6 +218,10 @@ package absnfs
 //@ prop C08
 //@ partial
 //@ requires s != nil && curTuning(s) != nil && curPolicy(s) != nil
+// C11: the new file is recorded with exactly the owner the handler asked for
+//@ callassert absfs.FS.Chown : [owner-as-requested] {C11} arg1 == sanitized(dir.path, name) && arg2 == attrs.Uid && arg3 == attrs.Gid
+//@ ensures [owner-recorded] {C11} isnil(result1) ==> chowns == old(chowns) + 1 && chownuid == old(attrs.Uid) && chowngid == old(attrs.Gid)
+//@ ensures [owner-or-nothing] {C11} chowns == old(chowns) || (chowns == old(chowns) + 1 && chownuid == old(attrs.Uid) && chowngid == old(attrs.Gid))
 // C07: the operation layer hands the backend nothing but sanitizePath's result
 //@ callassert absfs.FS.Create : [backend-path] {C07} arg1 == sanitized(dir.path, name)
 //@ callassert absfs.FS.Chmod : [backend-path] {C07} arg1 == sanitized(dir.path, name)
@@ -218,6 +231,7 @@ package absnfs
 //@ prop C08
 //@ partial
 //@ requires s != nil && curTuning(s) != nil && curPolicy(s) != nil
+//@ ensures [owner-or-nothing] {C11} chowns == old(chowns) || (chowns == old(chowns) + 1 && chownuid == old(attrs.Uid) && chowngid == old(attrs.Gid))
 //@ ensures [ro-refused] old(curPolicy(s).ReadOnly) ==> mutlog == old(mutlog) && !isnil(result1)
 //@ func AbsfsNFS.RemoveWithContext
 //@ prop C08
@@ -275,3 +289,12 @@ package absnfs
 //@ requires srvOK(h) && call != nil && reply != nil && authCtx != nil
 //@ modifies everything, allghosts - handlerCalls - atomicptr - lsncfg - poolsrc, locks, once
 //@ ensures [never-mutates] mutlog == old(mutlog)
+
+// ---- SETATTR in the operation layer: ownership is assigned only when it differs from the node's, and then
+// to exactly the requested ids (C11)
+//@ func AbsfsNFS.SetAttr
+//@ prop C11 C08
+//@ partial
+//@ requires s != nil
+//@ callassert absfs.FS.Chown : [owner-as-requested] {C11} arg1 == node.path && arg2 == attrs.Uid && arg3 == attrs.Gid
+//@ ensures [chown-only-on-change] {C11} node != nil && attrs != nil && old(node.attrs) != nil && old(attrs.Uid) == old(node.attrs.Uid) && old(attrs.Gid) == old(node.attrs.Gid) ==> chowns == old(chowns)
